@@ -160,11 +160,13 @@ Definition check_seed_case (c : list (Z * Z) * list (list Z) * list Z * list Z) 
   let '(edges, comms, nodes, out) := c in
   zl_eqb (seed_order Z.eqb (degree Z.eqb edges) comms nodes) out.
 
+(* `if block_moves and N >= 6 and random.random() < 0.5`: block reversals are proposed only from 6 nodes on *)
+Definition rev_min_nodes : nat := 6.
 (* (block_moves, seed order, traced?, orders passed to _objective after the first, returned order, G.nodes()) *)
 Definition check_opt_case (c : bool * list Z * bool * list (list Z) * list Z * list Z) : bool :=
   let '(block, seed, traced, trace, result, nodes) := c in
   is_perm Z.eqb result nodes &&
-  (if traced then check_trace Z.eqb (block && (6 <=? length seed)%nat) [seed] trace result else true).
+  (if traced then check_trace Z.eqb (block && (rev_min_nodes <=? length seed)%nat) [seed] trace result else true).
 
 Fixpoint close_list (tol : Q) (a b : list Q) : bool :=
   match a, b with
